@@ -387,6 +387,13 @@ func (w *walker) function(obj *types.Func, fd *ast.FuncDecl) {
 	delete(w.stack, obj)
 }
 
+func writeIfChanged(path, content string) {
+	if old, err := os.ReadFile(path); err == nil && string(old) == content {
+		return
+	}
+	os.WriteFile(path, []byte(content), 0o644)
+}
+
 func q(s string) string { return "\"" + strings.ReplaceAll(s, "\"", "\"\"") + "\"" }
 
 func main() {
@@ -457,7 +464,7 @@ func main() {
 		sb.WriteString("\n")
 	}
 	sb.WriteString("].\n")
-	os.WriteFile(filepath.Join(*out, "LockFacts.v"), []byte(sb.String()), 0o644)
+	writeIfChanged(filepath.Join(*out, "LockFacts.v"), sb.String())
 
 	// ---------------------------------------------------------------- constants the model is written against
 	{
@@ -529,8 +536,8 @@ func main() {
 			cb.WriteString("(" + q(k) + ", " + q(consts[k]) + ")")
 		}
 		cb.WriteString("].\n")
-		os.WriteFile(filepath.Join(*out, "Consts.v"), []byte(cb.String()), 0o644)
-		os.WriteFile(filepath.Join(*out, "PureFuns.v"), []byte(translatePure(*repo, load)), 0o644)
+		writeIfChanged(filepath.Join(*out, "Consts.v"), cb.String())
+		writeIfChanged(filepath.Join(*out, "PureFuns.v"), translatePure(*repo, load))
 	}
 
 	// ---------------------------------------------------------------- package-level state
@@ -623,5 +630,5 @@ func main() {
 		}
 	}
 	gb.WriteString("\n].\n")
-	os.WriteFile(filepath.Join(*out, "GlobalFacts.v"), []byte(gb.String()), 0o644)
+	writeIfChanged(filepath.Join(*out, "GlobalFacts.v"), gb.String())
 }
